@@ -167,6 +167,25 @@ fn wrong_length<T: DeserializeOwned + Bytes>(cx: &mut Ctx, ty: &str, n: usize, t
         let js = serde_json::to_string(&data).unwrap();
         let r = guard("json seq", || serde_json::from_str::<T>(&js).map_err(|e| e.to_string()));
         judge(cx, "json_array(visit_seq)", r);
+        // (1b) exactly N valid elements followed by one element that is not a byte: not N elements, must be refused
+        if count == n {
+            for extra in ["256", "-1", "1.5", "\"x\"", "null", "true", "[1]", "{}"] {
+                let js2 = format!("{},{}]", &js[..js.len() - 1], extra);
+                let js2 = if n == 0 { format!("[{}]", extra) } else { js2 };
+                cx.eval();
+                let r = guard("json seq + invalid element", || serde_json::from_str::<T>(&js2).map_err(|e| e.to_string()));
+                match r {
+                    Ok(Ok(v)) => cx.violation(&format!("C16|{}|wrong_length_accepted|json_array(visit_seq)|trailing_non_byte_element_ignored", ty), json!({"extra_element":extra,"decoded":hx(v.as_slice()),"fixed_length":n})),
+                    Ok(Err(_)) => {}
+                    Err(p) => cx.violation(&format!("C16|{}|decode_panics|json_array(visit_seq)", ty), json!({"panic":p.msg,"extra_element":extra})),
+                }
+                let val2 = guard("json value + invalid element", || serde_json::from_str::<serde_json::Value>(&js2).map_err(|e| e.to_string()).and_then(|v| serde_json::from_value::<T>(v).map_err(|e| e.to_string())));
+                if let Ok(Ok(v)) = val2 {
+                    cx.violation(&format!("C16|{}|wrong_length_accepted|json_value(visit_seq)|trailing_non_byte_element_ignored", ty), json!({"extra_element":extra,"decoded":hx(v.as_slice()),"fixed_length":n}));
+                }
+            }
+            cx.cover("wrong_length_path", &format!("{}|json_array+invalid_trailing_element", ty));
+        }
         // (2) bincode byte string: the byte-string path
         let bs = bincode::serialize(&serde_bytes_like(&data)).unwrap();
         let r = guard("bincode bytes", || bincode::deserialize::<T>(&bs).map_err(|e| e.to_string()));
@@ -244,6 +263,28 @@ pub fn run(cx: &mut Ctx) {
                 both(cx, "DryocSecretBox<Vec,Vec>", &bv, &|x, y| x == y && y.decrypt::<Vec<u8>, _, _>(&nonce, &key).ok().as_deref() == Some(&msg[..]), &d);
                 cloned(cx, "DryocSecretBox<Vec,Vec>", &bv, &|x, y| x == y && y.decrypt::<Vec<u8>, _, _>(&nonce, &key).ok().as_deref() == Some(&msg[..]), &d);
                 expect_eq(cx, "C16|DryocSecretBox|into_vec_differs_from_to_bytes", &dryoc::dryocsecretbox::VecBox::encrypt_to_vecbox(&msg, &nonce, &key).into_vec(), &wire, d);
+                // every generic parameter a Vec<u8>: from_bytes(to_vec()) reproduces the object for boxes and signed messages
+                {
+                    let bv: DryocSecretBox<Vec<u8>, Vec<u8>> = DryocSecretBox::encrypt(&msg, &nonce.to_vec(), &key.to_vec());
+                    match guard("from_bytes all-Vec", || DryocSecretBox::<Vec<u8>, Vec<u8>>::from_bytes(&bv.to_vec())) {
+                        Ok(Ok(b2)) => { expect(cx, "C16|DryocSecretBox<Vec,Vec>|from_bytes(to_bytes)_not_equal", b2 == bv && b2.decrypt::<Vec<u8>, Vec<u8>, Vec<u8>>(&nonce.to_vec(), &key.to_vec()).ok().as_deref() == Some(&msg[..]), d); }
+                        Ok(Err(e)) => cx.violation("C16|DryocSecretBox<Vec,Vec>|from_bytes(to_bytes)_fails", json!({"err":e.to_string(),"payload_len":len})),
+                        Err(p) => cx.violation("C16|DryocSecretBox<Vec,Vec>|from_bytes_panics", json!({"panic":p.msg,"payload_len":len})),
+                    }
+                    let bx: DryocBox<Vec<u8>, Vec<u8>, Vec<u8>> = DryocBox::encrypt(&msg, &nonce.to_vec(), &bpk.to_vec(), &ask.to_vec()).unwrap();
+                    match guard("from_bytes all-Vec", || DryocBox::<Vec<u8>, Vec<u8>, Vec<u8>>::from_bytes(&bx.to_vec())) {
+                        Ok(Ok(b2)) => { expect(cx, "C16|DryocBox<Vec,Vec,Vec>|from_bytes(to_bytes)_not_equal", b2 == bx && b2.decrypt::<Vec<u8>, Vec<u8>, Vec<u8>, Vec<u8>>(&nonce.to_vec(), &apk.to_vec(), &bsk.to_vec()).ok().as_deref() == Some(&msg[..]), d); }
+                        Ok(Err(e)) => cx.violation("C16|DryocBox<Vec,Vec,Vec>|from_bytes(to_bytes)_fails", json!({"err":e.to_string(),"payload_len":len})),
+                        Err(p) => cx.violation("C16|DryocBox<Vec,Vec,Vec>|from_bytes_panics", json!({"panic":p.msg,"payload_len":len})),
+                    }
+                    let sx: DryocBox<Vec<u8>, Vec<u8>, Vec<u8>> = DryocBox::seal(&msg, &bpk.to_vec()).unwrap();
+                    match guard("from_sealed_bytes all-Vec", || DryocBox::<Vec<u8>, Vec<u8>, Vec<u8>>::from_sealed_bytes(&sx.to_vec())) {
+                        Ok(Ok(b2)) => { expect(cx, "C16|DryocBox<Vec,Vec,Vec>(sealed)|from_sealed_bytes(to_bytes)_not_equal", b2 == sx, d); }
+                        Ok(Err(e)) => cx.violation("C16|DryocBox<Vec,Vec,Vec>(sealed)|from_sealed_bytes(to_bytes)_fails", json!({"err":e.to_string(),"payload_len":len})),
+                        Err(p) => cx.violation("C16|DryocBox<Vec,Vec,Vec>(sealed)|from_sealed_bytes_panics", json!({"panic":p.msg,"payload_len":len})),
+                    }
+                    cx.cover("all_vec_from_bytes", "secretbox,box,sealed");
+                }
                 // the same box with spare capacity behind its payload (a Vec's capacity is hidden state: boxes built from
                 // parts or filled element by element by a deserialiser have it, freshly encrypted ones do not)
                 for spare in [1usize, 15, 16, 17, 64] {
